@@ -158,7 +158,7 @@ def edge_filter_for(g, facts):
   return ok
 
 
-def quantile_order(rep, f, rule, level_iv, sites_fn, prop_hint=''):
+def quantile_order(rep, f, rule, level_iv, sites_fn, prop_hint='', level_open=''):
   """For tails in {1,2}: the argument of every 'lower' quantile is <= 0.5 and of every 'upper' quantile >= 0.5.
   sites_fn(ctx, rd, reach) yields (kind, arg_expr, node, what) with kind in {'lower','upper','lower-pct','upper-pct'}."""
   ctx = FuncCtx.of(f)
@@ -180,6 +180,12 @@ def quantile_order(rep, f, rule, level_iv, sites_fn, prop_hint=''):
         rep.undecided(rule, '%s (tails=%d)' % (what, tails), 'quantile argument not understood: %s' % norm(ex), f.loc(arg))
         continue
       good = iv.le(0.5 * scale) if kind.startswith('lower') else iv.ge(0.5 * scale)
+      if not good and level_open:
+        # would the argument be on the right side for level in [0, 1]?  then the verdict hangs on the unrecognised guard
+        iv01 = iv_eval(ex, {'level': Iv(0.0, 1.0), 'tails': Iv(tails, tails)})
+        if iv01 is not None and (iv01.le(0.5 * scale) if kind.startswith('lower') else iv01.ge(0.5 * scale)):
+          rep.undecided(rule, '%s (tails=%d)' % (what, tails), 'the range of level is not established (%s): for level in [0, 1] the argument `%s` is on the right side' % (level_open, norm(ex)), f.loc(arg))
+          continue
       rep.check(good, rule, 'tails=%d: %s quantile argument %s in %r is on the right side of the median' % (tails, what, norm(ex), iv), f.qualname,
                 'tails=%d: %s quantile argument %s' % (tails, kind, norm(ex)),        # keyed by the side and the argument, not by the name of the column / local
                 'with tails=%d the %s is the quantile at `%s`, which ranges over %r for level in %r: for level < 0.5 it lies on the wrong side of the median, so lower <= estimate <= upper fails%s'
@@ -722,7 +728,15 @@ def summary_rules(repo, rep, prefix, level_iv=None):
   # level: guard `level < 0.0 or level > 1.0 -> raise` gives [0, 1]
   guard = any(n.kind == 'test' and re.search(r'level < 0(\.0)? or level > 1(\.0)?', norm(n.expr)) for n in g.nodes)
   liv = Iv(0.0, 1.0) if guard else Iv(-INF, INF)
-  n = quantile_order(rep, f, prefix + 'R3/quantile-order', level_iv or liv, sites)
+  level_open = ''
+  if not guard and level_iv is None:
+    other_tests = [x_ for x_ in ast.walk(f.node) if isinstance(x_, ast.Compare) and any(isinstance(y_, ast.Name) and y_.id == 'level' for y_ in ast.walk(x_))]
+    dl_ = au.delegations(repo, f)
+    if other_tests:
+      level_open = 'level is compared in `%s`, which is not the recognised guard' % norm(other_tests[0])[:50]
+    elif dl_:
+      level_open = 'the function hands its arguments to %s, which is not followed' % dl_[0][1]
+  n = quantile_order(rep, f, prefix + 'R3/quantile-order', level_iv or liv, sites, level_open=level_open)
   rep.floor('quantile-order obligations of TBR.summary', n, 4)
 
 
